@@ -1,6 +1,6 @@
 SPECIFICATION Spec
 CONSTANTS
-  Classes = {"ok", "blank", "syntax", "indent", "tab", "nul", "syntax_noline"}
+  Classes = {"ok", "blank", "syntax", "indent", "tab", "nul", "syntax_noline", "unencodable", "resource"}
   MaxCalls = 2
   Offsets = {0, 3}
 INVARIANT TreeIsCurrent
